@@ -236,7 +236,11 @@ def pyfftw_call(array_in, array_out, direction='forward', axes=None,
 
 
 def _flag_pyfftw_to_odl(flag):
-    return flag.lstrip('FFTW_').lower()
+    # Not ``lstrip('FFTW_')``: that strips a character set, 'FFTW_FORWARD' -> 'orward'
+    flag = str(flag)
+    if flag.upper().startswith('FFTW_'):
+        flag = flag[len('FFTW_'):]
+    return flag.lower()
 
 
 def _flag_odl_to_pyfftw(flag):
